@@ -3,7 +3,7 @@
     types/ballot.go, keeper/keeper.go SetPrice).  Exact LegacyDec arithmetic on raw integers
     (value * 10^18, Nib.Lib.Dec).  No proofs in this file.
 
-    [fx] selects the code variant: [true] = current tree (commit d9ae51e: a vote of zero power can
+    [fx] selects the code variant of the median loop: [true] = current tree (commit d9ae51e: a vote of zero power can
     never be returned by the weighted-median loop), [false] = the tree before that fix. *)
 From Coq Require Import ZArith List Bool Arith.
 Import ListNotations.
@@ -149,15 +149,25 @@ Definition reward_spread (band median : Z) (vs : list pvote) : Z :=
   let s := mul median (quo_int band 2) in
   let sd := stddev vs median in
   if s <? sd then sd else s.
-(** Tally panics ("Int overflow") iff median*(band/2), median - spread or median + spread leaves
-    the Dec range (the median's own vote always reaches the Add) *)
+(** Tally, current code (commit 66a0ce3): isInsideSpread = rate >= median - spread && rate - spread <= median.
+    It panics ("Int overflow") iff median*(band/2) or median - spread leaves the Dec range, or rate - spread
+    does for a vote that passed the first comparison *)
 Definition tally_ok (band : Z) (vs : list pvote) (median : Z) : bool :=
+  let s := reward_spread band median vs in
+  in_range (mul median (quo_int band 2)) &&
+  in_range (median - s) &&
+  forallb (fun v => negb (median - s <=? pv_rate v) || in_range (pv_rate v - s)) vs.
+(** before 66a0ce3: rate <= median.Add(spread); the median's own vote always reaches the Add *)
+Definition tally_ok_add (band : Z) (vs : list pvote) (median : Z) : bool :=
   in_range (mul median (quo_int band 2)) &&
   in_range (median - reward_spread band median vs) &&
   in_range (median + reward_spread band median vs).
 
-(** clearExchangeRates: uint64 addition *)
+(** clearExchangeRates, current code (commit 48f939b): height >= created && height - created >= ExpirationBlocks *)
 Definition expired (p : params) (r : rate_entry) (h : Z) : bool :=
+  (r_created r <=? h) && (p_expiration p <=? h - r_created r).
+(** before 48f939b: created + ExpirationBlocks <= height with a wrapping uint64 addition *)
+Definition expired_wrap (p : params) (r : rate_entry) (h : Z) : bool :=
   (r_created r + p_expiration p) mod UINT64 <=? h.
 
 Inductive outcome :=
@@ -194,6 +204,23 @@ Definition is_period_last (h vp : Z) : bool := (h + 1) mod vp =? 0.
 (** oracle.EndBlocker, price part *)
 Definition end_block (fx : bool) (p : params) (st : state) (h : Z) : outcome :=
   if is_period_last h (p_vote_period p) then update fx p st h else Done (rates st) [].
+
+(** the same with every repaired spot selectable: [fx] d9ae51e (median skips zero-power votes),
+    [fe] 48f939b (expiry without wrap), [ft] 66a0ce3 (Tally without the overflowing Add);
+    [update fx = update_gen fx true true] *)
+Definition update_gen (fx fe ft : bool) (p : params) (st : state) (h : Z) : outcome :=
+  let pairs := voted_pairs st in
+  if (match pairs with [] => false | _ => true end) && negb (threshold_ok p (bonded_power st))
+  then Panic
+  else
+    let valid := valid_pairs p st in
+    let kept := filter (fun r => negb (memb (r_pair r) valid || (if fe then expired p r h else expired_wrap p r h))) (rates st) in
+    let meds := map (fun pr => (pr, wmedian fx (pair_votes st pr))) valid in
+    if forallb (fun pm => (if ft then tally_ok else tally_ok_add) (p_reward_band p) (pair_votes st (fst pm)) (snd pm)) meds
+    then Done (kept ++ map (fun pm => mkRate (fst pm) (snd pm) h) meds) meds
+    else Panic.
+Definition end_block_gen (fx fe ft : bool) (p : params) (st : state) (h : Z) : outcome :=
+  if is_period_last h (p_vote_period p) then update_gen fx fe ft p st h else Done (rates st) [].
 
 (* ================================================================ histories of vote periods *)
 
